@@ -187,6 +187,8 @@ def effect : P Effect := do
   | "gset" => do let k ← hexStr; pure (.gset k (← vexpr))
   | "ginc" => pure (.ginc (← hexStr))
   | "gmut" => do let k ← hexStr; pure (.gmut k (← int))
+  | "sdel" => pure (.sdel (← hexStr))
+  | "gdel" => pure (.gdel (← hexStr))
   | _ => throw s!"bad EFFECT tag '{t}'"
 
 def when_ : P When := do
